@@ -403,7 +403,10 @@ class Act:
         for f in self.faults:
             if f["kind"] == "crash":
                 self._crash_at = int(f["at"])
-        self._reuse_buf = any(f["kind"] == "reuse_buf" for f in self.faults)
+        # environment habits of the simulated user code (legal, harmless to a correct solver):
+        # the gradient function returns one reused buffer / the functions use their argument as scratch
+        self._reuse_buf = any(f["kind"] == "reuse_buf" for f in self.faults) or bool(c.get("env_reuse_buf"))
+        self._scribble_all = bool(c.get("env_scribble"))
         self._fstream = None
 
     # ---- event plumbing
@@ -451,7 +454,7 @@ class Act:
         self.fun_at.setdefault(xb, []).append((self.n_events, v))
         self._log("fun", j, x, struct.pack("<d", v))
         fl = self._fault_idx.get(("fun", j))
-        if fl and any(f["kind"] == "scribble_arg" for f in fl):
+        if self._scribble_all or (fl and any(f["kind"] == "scribble_arg" for f in fl)):
             self.fired["scribble_arg"] += 1
             x[:] = np.nan
         return v
@@ -463,6 +466,10 @@ class Act:
         xb = x.tobytes()
         self.jac_at.setdefault(xb, []).append((self.n_events, gv.copy()))
         self._log("jac", j, x, gv.tobytes())
+        fl = self._fault_idx.get(("jac", j))
+        if self._scribble_all or (fl and any(f["kind"] == "scribble_arg" for f in fl)):
+            self.fired["scribble_arg"] += 1
+            x[:] = np.nan
         if self._reuse_buf:
             if self._jac_buf is None:
                 self._jac_buf = np.empty_like(gv)
@@ -470,10 +477,6 @@ class Act:
                 self.fired["reuse_buf"] += 1
             self._jac_buf[:] = gv
             return self._jac_buf
-        fl = self._fault_idx.get(("jac", j))
-        if fl and any(f["kind"] == "scribble_arg" for f in fl):
-            self.fired["scribble_arg"] += 1
-            x[:] = np.nan
         return gv
 
     def _callback(self, xk, state):
